@@ -74,6 +74,11 @@ fn main() {
                 shard: arg_val(&args, "--shard").unwrap().parse().unwrap(),
                 nshards: arg_val(&args, "--of").unwrap().parse().unwrap(),
                 journal: arg_val(&args, "--journal").map(PathBuf::from),
+                resume: arg_val(&args, "--resume").and_then(|s| {
+                    let (a, b) = s.split_once(':')?;
+                    Some((a.parse().ok()?, b.parse().ok()?))
+                }),
+                out: arg_val(&args, "--out").map(PathBuf::from),
             };
             let out = PathBuf::from(arg_val(&args, "--out").unwrap());
             engine::run_worker(prop, &cfg, &out)
